@@ -738,7 +738,12 @@ Proof.
     assert (Hin : In (Error src (req_method r) tid code ch) acts) by (rewrite Eacts; apply in_or_app; right; left; reflexivity).
     destruct (error_means_unchanged _ _ _ _ _ _ _ _ _ _ _ _ _ _ Hs Hin) as [-> Ea].
     rewrite mset_eqb_refl. rewrite <- Eacts, Ea. cbn [lifes filter RelayCheck.is_life].
-    destruct (req_method r); cbn; destruct (code =? 437)%N; reflexivity. }
+    assert (Hm : method_eqb (req_method r) (req_method r) = true) by (destruct (req_method r); reflexivity).
+    rewrite Hm. cbn [andb].
+    destruct r as [tr lt fam df rp ep rt mt|lt fam|peers|n p|]; try (destruct (code =? 437)%N; reflexivity).
+    rewrite listing_of_map, find_oalloc_listing. destruct (find_alloc src (allocs s)) as [a|] eqn:Hf; [|destruct (code =? 437)%N; reflexivity].
+    cbn [option_map]. cbn [req_method] in Hin.
+    destruct (allocate_held_error_codes _ _ _ _ _ _ _ _ _ _ _ _ _ _ _ _ _ _ _ Hs Hf Hin) as [[-> ->]|[ ->|[ ->|[ ->| ->]]]]; reflexivity. }
   (* a success *)
   cbn [replies filter]. rewrite addr_eqb_refl, N.eqb_refl.
   assert (Hm : method_eqb (req_method r) (req_method r) = true) by (destruct (req_method r); reflexivity).
